@@ -125,6 +125,15 @@ func runFrameHist(r *ev.Run, prop string, thorough bool) {
 	r.Rule = fmt.Sprintf("every frame type with a self-computed %s x every registered body key (bodies Z, D with stale caller values, L = 300-byte texts and 3-element lists) + nil body; ALL operation sequences of length <= %d over {ENC(m0),ENC(m1),ENC(m2),SKIP(1),SKIP(3),JUNK(AA),JUNK(AAx5),RESET} x 10 buffer capacity classes (zero value, caller-owned slice, capacities 0/1/header/size-1/4096, and three mostly-consumed 512-byte buffers whose next growth slides the unread bytes inside the same array), each replayed on fresh real objects next to a pure model; after every op buffer and message objects are compared with the model; distinct = distinct (scenario,capacity,sequence); all are non-trivial (each executes >=1 real operation)", want, depth)
 	r.Assume("model transition for ENC is: unread ++= EncodeRef(m) with computed fields correct", "consumed bytes are not observable through the bytes.Buffer API and are not compared")
 	parScenarios(r, prop, scs)
+	// the value dimension: every V1 value of the frame types (every key, every body leaf deviation, stale computed fields)
+	var frames []*rm.Type
+	for _, sc := range scs {
+		if len(frames) == 0 || frames[len(frames)-1] != sc.T {
+			frames = append(frames, sc.T)
+		}
+	}
+	v1Histories(r, prop, frames, [][]hOp{{{opJUNK, 1}, {opENC, 0}, {opSKIP, 3}, {opENC, 0}}}, capZero, false, false)
+	v1Histories(r, prop, frames, [][]hOp{{{opENC, 0}}}, -117, false, false)
 	r.Sample("sse.SseBinary key 33: [ENC(m0) ENC(m1) SKIP(3) ] cap class -1")
 	r.Sample("sample.RootPacket nil body: [JUNK(1) ENC(m1) ENC(m0)] cap class 4096")
 	r.Set("bound", map[string]any{"depth": depth, "capacity_classes": 10})
@@ -168,30 +177,8 @@ func runC06(r *ev.Run, thorough bool) {
 		sc.SkipObjectCheck = true
 	}
 	parScenarios(r, "C06", scs)
-	// repeatability over the whole value space V1: the SAME object encoded twice into one buffer gives ref ++ ref
-	parTypes(r, bind.Types, func(t *rm.Type, l *ev.Local) {
-		sc := &hScenario{Name: t.QName() + " reenc", T: t, SkipObjectCheck: true}
-		seq := []hOp{{opJUNK, 0}, {opENC, 0}, {opENC, 0}, {opSKIP, 1}, {opENC, 0}}
-		valenum.Enum(t, valenum.Opts{K: 1, Big: false}, func(c *valenum.Case) bool {
-			if _, err := rm.EncodeBytes(c.V); err != nil {
-				return true
-			}
-			sc.Msgs = []*rm.Value{c.V.Clone()}
-			f, steps, key := runHistory(sc, capZero, seq)
-			l.Evals++
-			l.Transitions += int64(steps)
-			l.Traces++
-			l.Keys[ev.H(t.QName()+"reenc"+c.V.String())] = struct{}{}
-			l.States[key] = struct{}{}
-			if f != nil && histRelevant["C06"](f) {
-				v := histViolation("C06", sc, f, capZero, seq)
-				v.Detail = "value base " + c.Base + " dev {" + c.Desc + "}: " + v.Detail
-				r.Violate(v)
-				return !r.TooMany()
-			}
-			return true
-		})
-	})
+	// repeatability over the whole value space V1: the SAME object encoded several times into one buffer
+	v1Histories(r, "C06", bind.Types, [][]hOp{{{opJUNK, 0}, {opENC, 0}, {opENC, 0}, {opSKIP, 1}, {opENC, 0}}}, capZero, true, false)
 	r.Sample("szse.NewOrder nil-fill: [ENC(m0) ENC(m0) SKIP(3)] (encoder materialises the extension, second encode must give the same bytes)")
 	r.Set("bound", map[string]any{"depth": depth, "frame_depth": fd})
 }
@@ -277,7 +264,8 @@ func runC07(r *ev.Run, thorough bool) {
 			return true
 		})
 	})
-	r.Rule = fmt.Sprintf("per type: every tuple of <= %d encodes of messages {Z, D, L(300-byte texts, 3-element lists), another registered body} into one buffer, each of 5 tails (none, 00, FF, AAx5, a strict prefix of another encoding), then as many decodes; plus ALL sequences of length <= %d over {ENC,ENC,JUNK,JUNK,DEC,SKIP}; oracle: each decode consumes exactly len(EncodeRef(m)), yields the original value, leaves the remaining bytes identical; distinct = (type,capacity,sequence)", n, depth)
+	v1Histories(r, "C07", bind.Types, [][]hOp{{{opENC, 0}, {opJUNK, 1}, {opDEC, 0}}, {{opJUNK, 2}, {opSKIP, 1}, {opENC, 0}, {opENC, 0}, {opDEC, 0}, {opDEC, 0}}}, capZero, true, true)
+	r.Rule = fmt.Sprintf("for EVERY canonical value of V1 of every type the histories [ENC JUNK DEC] and [JUNK SKIP ENC ENC DEC DEC]; per type: every tuple of <= %d encodes of messages {Z, D, L(300-byte texts, 3-element lists), another registered body} into one buffer, each of 5 tails (none, 00, FF, AAx5, a strict prefix of another encoding), then as many decodes; plus ALL sequences of length <= %d over {ENC,ENC,JUNK,JUNK,DEC,SKIP}; oracle: each decode consumes exactly len(EncodeRef(m)), yields the original value, leaves the remaining bytes identical; distinct = (type,capacity,sequence)", n, depth)
 	r.Assume("after a failed decode the model re-synchronises with the real buffer (C07 constrains only successful decodes)")
 	r.Sample("sse.SseBinary: [ENC(m1) ENC(m0) ENC(m2) JUNK(3) DEC DEC DEC]")
 	r.Set("bound", map[string]any{"max_encodes": n, "free_depth": depth})
@@ -293,9 +281,10 @@ func runC16(r *ev.Run, thorough bool) {
 	for _, t := range bind.Types {
 		scs = append(scs, &hScenario{Name: t.QName(), T: t, Msgs: []*rm.Value{valenum.Distinct(t), valenum.Long(t)}, Ops: ops, Depth: depth, Caps: []int{capOwned, capZero}})
 	}
-	r.Rule = fmt.Sprintf("per type (messages D and L): ALL operation sequences of length <= %d over {ENC(m0),ENC(m1),DEC,SCRIBBLE(overwrite unread bytes, spare capacity and the caller-owned backing array with EE),RESET,MUT(change every scalar, text, list element and nested part of m0 in place)} x {buffer over a caller-owned slice, zero-value buffer}; separation invariant after every op: every decoded message equals its deep snapshot, buffer bytes equal the model; distinct = (type,capacity,sequence)", depth)
+	r.Rule = fmt.Sprintf("per type (messages D and L): ALL operation sequences of length <= %d over {ENC(m0),ENC(m1),DEC,SCRIBBLE(overwrite unread bytes, spare capacity and the caller-owned backing array with EE),RESET,MUT(change every scalar, text, list element and nested part of m0 in place)} x {buffer over a caller-owned slice, zero-value buffer}; separation invariant after every op: every decoded message equals its deep snapshot, buffer bytes equal the model; plus the history [ENC DEC SCRIBBLE RESET ENC MUT] over a caller-owned slice for EVERY canonical value of V1; distinct = (type,capacity,sequence) / (type,value)", depth)
 	r.Assume("snapshots are deep copies made through reflection (strings re-allocated)")
 	parScenarios(r, "C16", scs)
+	v1Histories(r, "C16", bind.Types, [][]hOp{{{opENC, 0}, {opDEC, 0}, {opSCRIBBLE, 0}, {opRESET, 0}, {opENC, 0}, {opMUT, 0}}}, capOwned, true, true)
 	r.Sample("sample.StringPacket: [ENC(m0) DEC SCRIBBLE] over a caller-owned slice: decoded message unchanged")
 	r.Set("bound", map[string]any{"depth": depth})
 }
@@ -309,4 +298,33 @@ func valenumHuge(frame *rm.Value) bool {
 	}
 	*body = *hv
 	return true
+}
+
+// v1Histories runs one fixed short history on a single message object for EVERY value of V1 of the given types
+// (the history explorers above use a few fixed messages per type; this leg covers the value dimension).
+func v1Histories(r *ev.Run, prop string, types []*rm.Type, seqs [][]hOp, capClass int, skipObj bool, canonical bool) {
+	parTypes(r, types, func(t *rm.Type, l *ev.Local) {
+		sc := &hScenario{Name: t.QName() + " v1", T: t, SkipObjectCheck: skipObj}
+		valenum.Enum(t, valenum.Opts{K: 1, Big: false, Canonical: canonical}, func(c *valenum.Case) bool {
+			if _, err := rm.EncodeBytes(c.V); err != nil {
+				return true
+			}
+			for si, seq := range seqs {
+				sc.Msgs = []*rm.Value{c.V.Clone()}
+				f, steps, key := runHistory(sc, capClass, seq)
+				l.Evals++
+				l.Transitions += int64(steps)
+				l.Traces++
+				l.Keys[ev.H(fmt.Sprint(t.QName(), "v1", si)+c.V.String())] = struct{}{}
+				l.States[key] = struct{}{}
+				if f != nil && histRelevant[prop](f) {
+					v := histViolation(prop, sc, f, capClass, seq)
+					v.Detail = "value base " + c.Base + " dev {" + c.Desc + "}: " + v.Detail
+					r.Violate(v)
+					return !r.TooMany()
+				}
+			}
+			return true
+		})
+	})
 }
